@@ -171,6 +171,39 @@ func runC17(c *core.Ctx) {
 				call(id)
 			}(int64(g), delay)
 		}
+		// in a third of the rounds another goroutine keeps completing first Do calls on
+		// OTHER, unrelated Once values of the same types while this round's callers wait
+		// for their action: nothing that happens to another value may release them early
+		// or change what they get
+		var sideWG sync.WaitGroup
+		sideStop := make(chan struct{})
+		sideBad := ""
+		if r.Chance(1, 3) {
+			c.Count("rounds_with_unrelated_once_values_completing_meanwhile", 1)
+			sideWG.Add(1)
+			go func() {
+				defer sideWG.Done()
+				<-start
+				for k := int64(0); k < 60; k++ {
+					select {
+					case <-sideStop:
+						return
+					default:
+					}
+					var s1 sync2.Once1[int64]
+					var s2 sync2.Once2[int64, string]
+					var s3 sync2.Once3[int64, string, [3]int64]
+					a := s1.Do(func() int64 { return -k })
+					b, bs := s2.Do(func() (int64, string) { return -k, "side" })
+					cc, _, _ := s3.Do(func() (int64, string, [3]int64) { return -k, "side", [3]int64{} })
+					if a != -k || b != -k || bs != "side" || cc != -k {
+						sideBad = fmt.Sprintf("an unrelated Once value returned (%d,%d,%q,%d) for its own action returning %d", a, b, bs, cc, -k)
+						return
+					}
+					runtime.Gosched()
+				}
+			}()
+		}
 		close(start)
 		if spin {
 			for t0 := time.Now(); ready.Load() < int32(ng) && time.Since(t0) < 2*time.Second; {
@@ -179,6 +212,12 @@ func runC17(c *core.Ctx) {
 			goFlag.Store(1)
 		}
 		if !joinOrDeadlock(c, &wg, fmt.Sprintf("Once%d", arity), "a round of concurrent Do calls", map[string]any{"arity": arity, "goroutines": ng}) {
+			return
+		}
+		close(sideStop)
+		sideWG.Wait()
+		if sideBad != "" {
+			c.Violate(fmt.Sprintf("Once%d:unrelated-values-interfere", arity), sideBad, nil)
 			return
 		}
 		for l := 0; l < late; l++ {
